@@ -216,6 +216,8 @@ class StaticUseDep(packages.PackageRestriction):
 # Which makes no sense; trace and fix.
 class _UseDepDefaultContainment(values.ContainmentMatch, caching=False):
     __slots__ = ("if_missing",)
+    # x(+) and x(-) match differently when the flag is missing from IUSE
+    __attr_comparison__ = values.ContainmentMatch.__attr_comparison__ + ("if_missing",)
 
     def __init__(self, if_missing: bool, vals, negate=False):
         self.if_missing = bool(if_missing)
